@@ -1,7 +1,7 @@
 import IoraModel.Lemmas.TpQuiesce
 import IoraModel.Lemmas.TpCount
 /-!
-# C09 — all invariants together, for every schedule
+# C09 — all invariants together, for every schedule (any number of controller threads)
 -/
 namespace Iora.ThreadPool
 
@@ -11,7 +11,7 @@ theorem pollHead_nctor (sh : Shared) (r : MRegs) (k : Poll) : ctorPc (pollHead s
   unfold pollHead; split
   · simp [ctorPc]
   · exact pollExit_nctor sh r k false
-theorem stepMYield_nctor (sh : Shared) (r : MRegs) : ctorPc (stepMYield sh r).2.1 = false := by
+theorem stepMYield_nctor (cfg : Cfg) (sh : Shared) (r : MRegs) : ctorPc (stepMYield cfg sh r).2.1 = false := by
   unfold stepMYield drainEnter; (repeat' split) <;> simp [ctorPc]
 theorem drainReturn_nctor (sh : Shared) (r : MRegs) (b : Bool) : ctorPc (drainReturn sh r b).2.1 = false := by
   unfold drainReturn; (repeat' split) <;> simp [ctorPc]
@@ -19,182 +19,80 @@ theorem shutdownReturn_nctor (sh : Shared) (r : MRegs) : ctorPc (shutdownReturn 
   unfold shutdownReturn; (repeat' split) <;> simp [ctorPc]
 theorem dtorReturn_nctor (sh : Shared) (r : MRegs) : ctorPc (dtorReturn sh r).2.1 = false := by
   unfold dtorReturn; simp [ctorPc]
-
-theorem nctor_ne_cC (pc : MPc) (h : ctorPc pc = false) : pc ≠ .cC := by
-  intro e; rw [e] at h; simp [ctorPc] at h
-
-/-- the controller reaches `cC` (thread creation in the constructor) only from `cL` -/
-theorem transM_cC (cfg : Cfg) (sh : Shared) (n t : Nat) (pc : MPc) (r : MRegs) (alt : Nat)
-    (h : (transM cfg sh n t pc r alt).2.1.1 = .cC) : pc = .cL := by
-  cases pc with
-  | cL => rfl
-  | inCall c =>
-    simp only [transM] at h
-    cases hx : (callStep cfg sh n t c).2.1 <;> simp [hx] at h
-  | mYield => simp only [transM] at h; exact absurd h (nctor_ne_cC _ (stepMYield_nctor sh r))
-  | dInfU => simp only [transM] at h; exact absurd h (nctor_ne_cC _ (pollHead_nctor _ _ _))
-  | pollZ k => simp only [transM] at h; exact absurd h (nctor_ne_cC _ (pollHead_nctor _ _ _))
-  | p2Grace => simp only [transM] at h; exact absurd h (nctor_ne_cC _ (pollHead_nctor _ _ _))
-  | p5U => simp only [transM] at h; exact absurd h (nctor_ne_cC _ (dtorReturn_nctor { sh with owner := none } r))
-  | pollU k =>
-    simp only [transM] at h; split at h
-    · exact absurd h (nctor_ne_cC _ (pollExit_nctor _ _ _ _))
-    · simp at h
-  | finU k =>
-    cases k <;> simp only [transM] at h
-    · exact absurd h (nctor_ne_cC _ (drainReturn_nctor { sh with owner := none } r false))
-    all_goals simp at h
-  | sFlagUA =>
-    simp only [transM] at h; split at h
-    · exact absurd h (nctor_ne_cC _ (dtorReturn_nctor { sh with owner := none } r))
-    · exact absurd h (nctor_ne_cC _ (shutdownReturn_nctor { sh with owner := none } r))
-  | sBcast =>
-    simp only [transM] at h; split at h
-    · simp at h
-    · exact absurd h (nctor_ne_cC _ (pollHead_nctor _ _ _))
-  | sChkU =>
-    simp only [transM] at h; split at h
-    · exact absurd h (nctor_ne_cC _ (pollHead_nctor _ _ _))
-    · simp at h
-  | jUnone =>
-    simp only [transM] at h; split at h
-    · simp at h
-    · exact absurd h (nctor_ne_cC _ (shutdownReturn_nctor { sh with owner := none } r))
-  | p2Z =>
-    simp only [transM] at h; split at h
-    · simp at h
-    · split at h
-      · simp at h
-      · exact absurd h (nctor_ne_cC _ (pollHead_nctor _ _ _))
-  | _ => simp only [transM] at h <;> (repeat' split at h) <;> simp at h
-
-theorem trans_cC (cfg : Cfg) (sh : Shared) (n t : Nat) (th : Thread) (alt : Nat) (r' : MRegs)
-    (h : (trans cfg sh n t th alt).2.1 = .main .cC r') : ∃ r, th = .main .cL r := by
-  cases th with
-  | main pc r =>
-    simp only [trans] at h
-    injection h with h1 _
-    exact ⟨r, by rw [transM_cC cfg sh n t pc r alt h1]⟩
-  | sub x => simp [trans] at h
-  | worker x => simp [trans] at h
-
-/-- thread 0 is the controller and its state is consistent with the flags -/
-def MainInv (s : St) : Prop := ∃ pc r, s.thr[0]? = some (.main pc r) ∧ MainOk s.sh pc
+theorem dtorEarly_nctor (sh : Shared) (r : MRegs) : ctorPc (dtorEarly sh r).2.1 = false := by
+  unfold dtorEarly; split
+  · exact dtorReturn_nctor sh r
+  · simp [ctorPc]
 
 structure AllInv (s : St) : Prop where
   mutex : MutexOk s
+  c : CInv s
   w : WInv s
-  main : MainInv s
   q : QOk s
 
-theorem mainOk_init (cfg : Cfg) : MainOk (init cfg).sh .start := by
-  refine ⟨by simp [inShut, seqPc, qPc], by simp [qPc], by simp [init], by simp [init], by simp [init], by simp [init]⟩
-
 theorem allInv_init (cfg : Cfg) : AllInv (init cfg) := by
-  refine ⟨mutexOk_init cfg, winv_init cfg, ⟨.start, _, rfl, mainOk_init cfg⟩, ?_⟩
+  refine ⟨mutexOk_init cfg, cinv_init cfg, winv_init cfg, ?_⟩
   intro h; simp [init] at h
 
-theorem trans_flags_nonmain (cfg : Cfg) (sh : Shared) (n t : Nat) (th : Thread) (alt : Nat) (h : isMain th = false) :
-    FlagsSame sh (trans cfg sh n t th alt).1 := by
-  cases th with
-  | main pc r => simp [isMain] at h
-  | sub x => exact transS_flags cfg sh n t x
-  | worker x => exact transW_flags cfg sh n t x
-
-theorem main_not_asleep (x y : Thread) (h : isMain x = true) (hw : WokeFrom x y) : y = x := by
-  rcases hw with e | ⟨ha, _⟩
-  · exact e
-  · cases x with
-    | main pc r => simp [isAsleep] at ha
-    | sub z => simp [isMain] at h
-    | worker z => simp [isMain] at h
-
-theorem allInv_step (cfg : Cfg) (hdet : cfg.detached = false) (hmax : 1 ≤ cfg.maxSize) (s : St) (c : Choice)
+theorem allInv_step (cfg : Cfg) (hdet : cfg.detached = false) (hr : cfg.allowRestart = false) (s : St) (c : Choice)
     (h : AllInv s) : AllInv (step cfg s c) := by
-  obtain ⟨pc0, r0, hm0, hmok⟩ := h.main
-  have hqs : s.sh.quiesced = true → s.sh.shutdown = true := hmok.qs
-  have main_is_0 : ∀ (t : Nat) (th : Thread), s.thr[t]? = some th → isMain th = true → th = .main pc0 r0 := by
-    intro t th hget hm
-    have := h.w.oneMain t th hget hm
-    rw [this, hm0] at hget
-    exact (Option.some.inj hget).symm
-  have hctor : ∀ (t : Nat) (th : Thread), s.thr[t]? = some th → ∀ r, th = .main .cL r → s.sh.quiesced = false := by
+  have hqs : s.sh.quiesced = true → s.sh.shutdown = true := h.c.gok.qs
+  have hcq : ∀ (t : Nat) (th : Thread), s.thr[t]? = some th → ∀ r, th = .main .cC r → s.sh.quiesced = false := by
     intro t th hget r e
-    have := main_is_0 t th hget (by rw [e]; rfl)
-    rw [e] at this
-    injection this with e1 _
-    exact hmok.ctor (by rw [← e1]; rfl)
-  refine ⟨mutexOk_step cfg s c h.mutex, winv_step cfg hdet hmax s c h.mutex h.w, ?_, ?_⟩
-  · -- the controller invariant
-    apply step_cases cfg s c MainInv
-    · exact h.main
-    · intro t th b hget ha
-      have ne : 0 ≠ t := by
-        intro e; rw [← e, hm0] at hget
-        have := Option.some.inj hget; rw [← this] at ha; simp [isAsleep] at ha
-      exact ⟨pc0, r0, by simp only []; rw [getElem?_set_ne' s.thr t 0 _ ne]; exact hm0, hmok⟩
-    · intro t th to late hget hw _
-      have ne : 0 ≠ t := by
-        intro e; rw [← e, hm0] at hget
-        have := Option.some.inj hget; rw [← this] at hw; simp [wokenBy] at hw
-      exact ⟨pc0, r0, by simp only []; rw [getElem?_set_ne' s.thr t 0 _ ne]; exact hm0,
-        mainOk_of_flags hmok (reacq_flags cfg s.sh t late)⟩
-    · intro t th alt l hget _ _ _ _ hp
-      have hts := threadsStep_of_run cfg s t th alt l hget hp
-      by_cases e : t = 0
-      · rw [e, hm0] at hget
-        have e2 : Thread.main pc0 r0 = th := Option.some.inj hget
-        rw [e] at hts
-        rw [← e2] at hts ⊢
-        rw [e]
-        refine ⟨_, _, hts.self, ?_⟩
-        exact transM_mainOk cfg s.sh s.thr.length 0 pc0 r0 alt hmok
-      · have hnm : isMain th = false := by
-          cases hm : isMain th with
-          | false => rfl
-          | true => exact absurd (h.w.oneMain t th hget hm) e
-        obtain ⟨y, hy, hwf⟩ := hts.old 0 _ (fun e2 => e e2.symm) hm0
-        rw [main_not_asleep _ y rfl hwf] at hy
-        exact ⟨pc0, r0, hy, mainOk_of_flags hmok (trans_flags_nonmain cfg s.sh s.thr.length t th alt hnm)⟩
-  · -- quiescence
-    apply step_cases cfg s c QOk
-    · exact h.q
-    · intro t th b hget ha
-      have hth : th = .worker .asleep := by
-        cases th with
-        | worker w => cases w <;> simp [isAsleep] at ha; rfl
-        | main pc r => simp [isAsleep] at ha
-        | sub x => simp [isAsleep] at ha
-      exact qok_of_eff cfg s s.sh t th (wake th b) .none 0 _ h.w h.mutex h.q hget (by rw [hth]; rfl)
-        (by rw [hth]; intro e; simp [locksM, locksW] at e) hqs (hctor t th hget)
-        (by rw [hth]; intro r' e; simp [wake] at e)
-        (.quiet (SameQ.rfl' _) (fun nt e => by cases e) (by rw [hth]; rfl) (by rw [hth]; rfl) (by simp) (by simp) (by simp) (by simp)
-          (by rw [hth]; intro e; simp [wake] at e))
-        (threadsStep_of_set s.thr t th _ hget) (fun nt e => by cases e)
-    · intro t th to late hget hw ho
-      have hth : th = .worker (.woken to) := by
-        cases th with
-        | worker w => cases w <;> simp [wokenBy] at hw; rw [hw]
-        | main pc r => simp [wokenBy] at hw
-        | sub x => simp [wokenBy] at hw
-      have heff : StepEff cfg s.sh s.thr.length t th 0 (reacq cfg s.sh t late).1 (.worker (reacq cfg s.sh t late).2) .none := by
-        rcases reacq_eff cfg s.sh t late with he | ⟨hq, hwr⟩
-        · exact waitEff_lift cfg s.sh s.sh s.thr.length t 0 th _ _ (SameQ.rfl' _) he (by rw [hth]; exact ⟨rfl, rfl, rfl⟩)
-            (by rw [hth]; rfl) (by rw [hth]; rfl)
-        · rw [hwr]
-          exact .quiet hq (fun nt e => by cases e) (by rw [hth]; rfl) rfl (by rw [hth]; rfl) (by rw [hth]; rfl) (by rw [hth]; rfl)
-            (by rw [hth]; rfl) (by intro e; cases e)
-      exact qok_of_eff cfg s _ t th _ .none 0 _ h.w h.mutex h.q hget (by rw [hth]; rfl)
-        (by rw [hth]; intro e; simp [locksM, locksW] at e) hqs (hctor t th hget) (by intro r' e; cases e)
-        heff (threadsStep_of_set s.thr t th _ hget) (fun nt e => by cases e)
-    · intro t th alt l hget _ _ hf he hp
-      exact qok_of_eff cfg s _ t th _ _ alt l h.w h.mutex h.q hget hf (enabled_locks s th he) hqs (hctor t th hget)
-        (fun r' e => trans_cC cfg s.sh s.thr.length t th alt r' e)
-        (trans_eff cfg s.sh s.thr.length t th alt) (threadsStep_of_run cfg s t th alt l hget hp)
-        (fun nt e => trans_spawn cfg s.sh s.thr.length t th alt nt e)
+    rw [e] at hget
+    exact ((h.c.cok t .cC r hget).ctor (by simp [ctorPc])).2
+  have hnotgt : ∀ (t : Nat) (th : Thread), s.thr[t]? = some th → ∀ r, th = .main .jL r →
+      ∀ (j : Nat) (x : Thread) (w : Tid), s.thr[j]? = some x → targetOf x ≠ some w := by
+    intro t th hget r e j x w hx htg
+    -- a thread with a join target owns the shutdown, and so does the acting thread at `jL`: they are the same thread
+    cases x with
+    | main pc rx =>
+      have ho : ownsPc pc = true := by cases pc <;> simp [targetOf] at htg <;> simp [ownsPc, seqPc]
+      rw [e] at hget
+      have := h.c.oneOwner j t pc .jL rx r hx hget ho (by simp [ownsPc, seqPc])
+      rw [this, hget] at hx
+      injection hx with hx; injection hx with e1 _
+      rw [← e1] at htg; simp [targetOf] at htg
+    | sub z => simp [targetOf] at htg
+    | worker z => simp [targetOf] at htg
+  refine ⟨mutexOk_step cfg s c h.mutex, cinv_step cfg hdet hr s c h.c, winv_step cfg s c h.mutex h.c h.w, ?_⟩
+  apply step_cases cfg s c QOk
+  · exact h.q
+  · intro t th b hget ha
+    have hth : th = .worker .asleep := by
+      cases th with
+      | worker w => cases w <;> simp [isAsleep] at ha; rfl
+      | main pc r => simp [isAsleep] at ha
+      | sub x => simp [isAsleep] at ha
+    exact qok_of_eff cfg s s.sh t th (wake th b) .none 0 _ h.w h.mutex h.q hget (by rw [hth]; rfl)
+      (by rw [hth]; intro e; simp [locksM, locksW] at e) hqs (hcq t th hget) (hnotgt t th hget) (by rw [hth]; rfl)
+      (.quiet (SameQ.rfl' _) (fun nt e => by cases e) (by rw [hth]; rfl) (by rw [hth]; rfl) (by simp) (by simp) (by simp) (by simp)
+        (by rw [hth]; intro e; simp [wake] at e))
+      (threadsStep_of_set s.thr t th _ hget) (fun nt e => by cases e)
+  · intro t th to late hget hw ho
+    have hth : th = .worker (.woken to) := by
+      cases th with
+      | worker w => cases w <;> simp [wokenBy] at hw; rw [hw]
+      | main pc r => simp [wokenBy] at hw
+      | sub x => simp [wokenBy] at hw
+    have heff : StepEff cfg s.sh s.thr.length t th 0 (reacq cfg s.sh t late).1 (.worker (reacq cfg s.sh t late).2) .none := by
+      rcases reacq_eff cfg s.sh t late with he | ⟨hq, hwr⟩
+      · exact waitEff_lift cfg s.sh s.sh s.thr.length t 0 th _ _ (SameQ.rfl' _) he (by rw [hth]; exact ⟨rfl, rfl, rfl⟩)
+          (by rw [hth]; rfl) (by rw [hth]; rfl)
+      · rw [hwr]
+        exact .quiet hq (fun nt e => by cases e) (by rw [hth]; rfl) rfl (by rw [hth]; rfl) (by rw [hth]; rfl) (by rw [hth]; rfl)
+          (by rw [hth]; rfl) (by intro e; cases e)
+    exact qok_of_eff cfg s _ t th _ .none 0 _ h.w h.mutex h.q hget (by rw [hth]; rfl)
+      (by rw [hth]; intro e; simp [locksM, locksW] at e) hqs (hcq t th hget) (hnotgt t th hget) (by rw [hth]; rfl)
+      heff (threadsStep_of_set s.thr t th _ hget) (fun nt e => by cases e)
+  · intro t th alt l hget _ _ hf he hp
+    exact qok_of_eff cfg s _ t th _ _ alt l h.w h.mutex h.q hget hf (enabled_locks s th he) hqs (hcq t th hget) (hnotgt t th hget)
+      (h.c.nors t th hget)
+      (trans_eff cfg s.sh s.thr.length t th alt) (threadsStep_of_run cfg s t th alt l hget hp)
+      (fun nt e => trans_spawn cfg s.sh s.thr.length t th alt nt e)
 
-theorem allInv_run (cfg : Cfg) (hdet : cfg.detached = false) (hmax : 1 ≤ cfg.maxSize) (sched : List Choice) :
+theorem allInv_run (cfg : Cfg) (hdet : cfg.detached = false) (hr : cfg.allowRestart = false) (sched : List Choice) :
     AllInv (run cfg sched) :=
-  inv_run cfg AllInv (allInv_init cfg) (fun s c h => allInv_step cfg hdet hmax s c h) sched
+  inv_run cfg AllInv (allInv_init cfg) (fun s c h => allInv_step cfg hdet hr s c h) sched
 
 end Iora.ThreadPool
